@@ -30,6 +30,12 @@ func NewWeekFromString(yyyyWww string) (Week, error) {
 	if week < 1 {
 		return Week{}, errors.New("INVALID_WEEK_PERIOD")
 	}
+	// The 28th of December always lies in the last week of its year.
+	if lastDay, dErr := klog.NewDate(year, 12, 28); dErr != nil {
+		return Week{}, errors.New("INVALID_WEEK_PERIOD")
+	} else if _, lastWeek := lastDay.WeekNumber(); week > lastWeek {
+		return Week{}, errors.New("INVALID_WEEK_PERIOD")
+	}
 	reference, err := func() (klog.Date, error) {
 		ref, yErr := klog.NewDate(year, 7, 1)
 		if yErr != nil {
